@@ -203,6 +203,43 @@ class Checker:
         self.violation(monitor, 'count', '%d records read, %d written (common prefix equal)' % (len(got), len(exp)), w)
         return False
 
+    @staticmethod
+    def random_other_op(rng, model):
+        nvr = len(model.vrs)
+        kind = rng.choice(['vrs_full', 'vrs_full', 'vrs_partial', 'positions_full', 'positions_partial', 'lrsh_of_vr', 'lrsh_fragments_of_vr'])
+        if kind == 'vrs_partial':
+            return (kind, rng.randrange(1, nvr + 1))
+        if kind == 'positions_partial':
+            return (kind, rng.randrange(1, len(model.records) + 1))
+        if kind in ('lrsh_of_vr', 'lrsh_fragments_of_vr'):
+            return (kind, rng.randrange(nvr))
+        return (kind, 0)
+
+    def run_other_op(self, fr, op):
+        """Drive one of the reader's other public iterators (results are not asserted here: C02 owns the index)."""
+        kind, arg = op
+        self.rec.add('other_iterator_ops', 1)
+        if kind == 'vrs_full':
+            for _ in fr.iter_visible_records():
+                pass
+        elif kind == 'vrs_partial':
+            for i, _ in enumerate(fr.iter_visible_records()):
+                if i + 1 >= arg:
+                    break
+        elif kind == 'positions_full':
+            for _ in fr.iter_logical_record_positions():
+                pass
+        elif kind == 'positions_partial':
+            for i, _ in enumerate(fr.iter_logical_record_positions()):
+                if i + 1 >= arg:
+                    break
+        else:
+            vrs = list(fr.iter_visible_records())
+            vr = vrs[arg % len(vrs)]
+            it = fr.iter_LRSHs_for_visible_record(vr) if kind == 'lrsh_of_vr' else fr.iter_LRSHs_for_visible_record_and_logical_data_fragment(vr)
+            for _ in it:
+                pass
+
     def check_file(self, data, model, how, classes=(), extra_history=False, via_path=False, sample=None):
         """Run the real sequential reader over one generated file and compare with the model."""
         rec, File = self.rec, self.File
@@ -215,10 +252,19 @@ class Checker:
         rec.mon('records_vs_model')
         # drawn before the reader runs, so that the random stream never depends on what the reader returned
         k = self.ctx.rng.randrange(0, len(model.records) + 1) if extra_history else 0
+        # other public iterators of the same reader, run before the first and before the last sequential pass: the sequential
+        # read must not depend on what the reader was used for before (drawn here, before the reader runs)
+        rng = self.ctx.rng
+        pre_ops = [self.random_other_op(rng, model) for _ in range(rng.choice([0, 1, 1, 2]))] if extra_history else []
+        mid_ops = [self.random_other_op(rng, model) for _ in range(rng.choice([0, 1, 2]))] if extra_history else []
         try:
             fr = File.FileRead(io.BytesIO(data))
             with fr:
                 self.compare_label(fr.sul, model.sul, data, model, how)
+                for op in pre_ops:
+                    self.run_other_op(fr, op)
+                if pre_ops:
+                    how = how + '+pre-history%s' % pre_ops
                 events = self.read_events(fr)
                 ok = self.compare_events(events, model, data, how)
                 rec.add('iterator_events', len(events))
@@ -229,13 +275,15 @@ class Checker:
                 if extra_history and ok:
                     # operation history on one reader: abandoned partial pass, then a complete second pass
                     part = self.read_events(fr, limit=k) if k else []
+                    for op in mid_ops:
+                        self.run_other_op(fr, op)
                     again = self.read_events(fr)
                     rec.mon('reiteration')
                     rec.add('reiteration_events', len(part) + len(again))
                     if [e[:4] for e in part] != [e[:4] for e in events[:k]]:
                         self.violation('reiteration', 'partial-pass', 'a second, abandoned pass of %d records differs from the first pass' % k,
                                        dict(self.base_witness(data, model, how), history=['full', 'partial:%d' % k]))
-                    self.compare_events(again, model, data, how + '+history[full,partial:%d,full]' % k, monitor='reiteration')
+                    self.compare_events(again, model, data, how + '+history[full,partial:%d,%s,full]' % (k, mid_ops), monitor='reiteration')
         except Exception as e:  # a conformant file must be read without an error
             label_refused = 'can not construct SUL' in str(e)
             w = self.base_witness(data, model, how)
